@@ -648,7 +648,48 @@ def check_ladder(res, case):
             res.outcome('ladder:foreign:%s:ACCEPTED' % size)
 
 
-CHECKERS = {'encode': check_encode, 'retarget': check_retarget, 'numeric': check_numeric, 'ladder': check_ladder}
+# ---------------------------------------------------------------- part: lists of pieces encoded in different alphabets
+# as_encoded_array(list of EncodedArray) with pieces of two different alphabets: single characters (0-d, what indexing a
+# sequence returns), one-letter rows and two-letter rows.  The call may refuse; if it returns, the result decodes to the
+# letters of the pieces (never to other letters).
+def check_mixed(res, case):
+    bnp = lib()['bnp']
+    a, b = case['a'], case['b']
+    ea, eb = encoding(a), encoding(b)
+    sa, sb = case['sa'], case['sb']
+    res.evaluations += 1
+    res.states += 1
+    res.planned += 1
+    res.traces += 1
+    res.nontrivial += 1
+    builders = [('single characters (0-d)', lambda: [bnp.as_encoded_array(sa, ea)[0], bnp.as_encoded_array(sb, eb)[0]], [sa, sb]),
+                ('one-letter rows', lambda: [bnp.as_encoded_array(sa, ea), bnp.as_encoded_array(sb, eb)], [sa, sb]),
+                ('two-letter row + single character', lambda: [bnp.as_encoded_array(sa + sa, ea), bnp.as_encoded_array(sb, eb)[0]], [sa + sa, sb])]
+    for form, build, pieces in builders:
+        for tgt_name, tgt in (('none', None), (a, ea), (b, eb)):
+            res.transitions += 1
+            try:
+                lst = build()
+                out = bnp.as_encoded_array(lst) if tgt is None else bnp.as_encoded_array(lst, tgt)
+                ob = observe_rows(out)
+            except observe.ObserverError:
+                raise
+            except Exception:
+                res.outcome('mixed:refused')
+                continue
+            letters = ''.join(ob[1]) if ob[0] == 'rows' else None
+            if letters is None or letters.upper() != ''.join(pieces).upper():
+                res.fail('list-of-pieces-in-two-alphabets-decodes-to-other-letters', dict(case, form=form, target=tgt_name),
+                         {'part': 'mixed', 'form': form, 'target': 'none' if tgt is None else ('first' if tgt_name == a else 'second'),
+                          'same_alphabet': a == b},
+                         expected={'pieces': pieces, 'or': 'raises'}, observed={'decoded': ob})
+                res.outcome('mixed:OTHER-LETTERS')
+            else:
+                res.outcome('mixed:same-letters')
+
+
+CHECKERS = {'encode': check_encode, 'retarget': check_retarget, 'numeric': check_numeric, 'ladder': check_ladder,
+            'mixed': check_mixed}
 
 
 def check_case(res, case, cache=None):
@@ -754,6 +795,12 @@ def unit_cases(unit, tier, seed):
                 layouts = retarget_layouts(n, quick, seed, big)
                 for tgt in targets:
                     yield {'part': 'retarget', 'source': src, 'target': tgt, 'text': text, 'layouts': layouts}
+    elif kind == 'mixed':
+        _, a = unit
+        for b in NAMES:
+            for sa in A.ALPHABETS[a]:
+                for sb in A.ALPHABETS[b]:
+                    yield {'part': 'mixed', 'a': a, 'b': b, 'sa': sa, 'sb': sb}
     elif kind == 'ladder':
         _, name, sizes = unit
         for n in sizes:
@@ -809,6 +856,8 @@ def unit_cost(unit, tier, seed):
             texts = s ** (n - 1) * (n if kind == 'foreign' else 1)
             tot += texts * len(A.profiles(n, MAX_ROWS)) * (16 if kind == 'valid' else 8)
         return tot
+    if kind == 'mixed':
+        return 9 * len(A.ALPHABETS[unit[1]]) * sum(len(A.ALPHABETS[b]) for b in NAMES)
     if kind == 'ladder':
         return 10 * len(unit[2]) + sum(unit[2]) // 40
     if kind == 'retarget':
@@ -835,6 +884,8 @@ def units(tier, seed):
             out.append(['valid', name, fi])
         for ri in range(len(A.foreign_representatives(name))):
             out.append(['foreign', name, ri])
+    for name in NAMES:
+        out.append(['mixed', name])
     sizes = ladder_sizes(tier)
     for name in NAMES:
         for i in range(0, len(sizes), 6):
